@@ -15,6 +15,9 @@ import os
 from . import hirq as H
 from . import tables as T
 from .pathcond import Analysis, OK, ERR
+from . import dispatch as D
+from . import sym as S
+from . import valueset as VS
 from .engine import VERIF
 
 LEVEL = "proof"
@@ -36,69 +39,57 @@ def scrut_is_param(fn, m):
     return lid is not None and lid in ids
 
 
-def vendor_decode(F):
-    """set of bytes b with VendorOperation::try_from(b) = Ok(VendorOperation(b)) — from the path literals
-    of the function (match table, if/else chain, range.contains ... all normalise to value sets)"""
-    fn = F.trait_impl_fn(VTRY, "try_from")
-    if fn is None:
-        raise T.Unreadable("anchor missing: impl TryFrom<u8> for VendorOperation")
-    A, rows = T.site_table(fn, F)
-    if A.tries:
-        raise T.Unreadable("VendorOperation::try_from has `?` exits")
-    ok = set()
-    for r in rows:
-        if r["kind"] != "ok":
-            continue
-        res = H.strip_block(r["res"])
-        if not (res.get("k") == "call" and res.get("ctor") in (VEND, "Self:" + VEND) and len(res["args"]) == 1):
-            raise T.Unreadable("VendorOperation::try_from Ok result is not VendorOperation(code)")
-        if H.local_id(A.subst(res["args"][0])) not in r["var_ids"]:
-            raise T.Unreadable("VendorOperation::try_from wraps something other than the byte it was given")
-        ok |= r["vals"]
-    return ok
+def param_name(fn):
+    names = [n for p in fn["params"] for n, _ in H.pat_bindings(p)]
+    return names[0] if len(names) == 1 else None
 
 
 def decode_table(F):
+    """total map 0..=255 -> ('op', name) | ('vendor', b) | ('reject',) from the path summaries of Operation::try_from
+    (VendorOperation::try_from expanded at its call site): each path admits a set of bytes (valueset) and returns one term"""
     fn = F.trait_impl_fn(TRY, "try_from")
     if fn is None:
         raise T.Unreadable("anchor missing: impl TryFrom<u8> for Operation")
-    A, rows = T.site_table(fn, F)
-    vtry = F.trait_impl_fn(VTRY, "try_from")
-    vend_ok = None
+    pn = param_name(fn)
+    if pn is None:
+        raise T.Unreadable("Operation::try_from does not take exactly one argument")
+    var = ("param", pn)
+    try:
+        paths = S.Sym(F, fn).run()
+    except S.TooManyPaths:
+        raise T.Unreadable("Operation::try_from has too many paths")
     out = {}
-    for r in rows:
-        if not r["vals"]:
+    for p in paths:
+        if p.done and p.done[0] == "panic":
+            raise T.Unreadable("Operation::try_from can panic (%s)" % (p.done,))
+        vals, bad = VS.path_set(p.atoms, var, range(256))
+        other = [a for a in p.atoms if VS.atom_set(a, var, range(256)) is None]
+        if bad or other:
+            raise T.Unreadable("Operation::try_from decides on something that is not a comparison of its argument with constants: %s" % [S.show_atom(a) for a in bad + other][:2])
+        r = p.result
+        if not vals:
             continue
-        if r["kind"] == "err":
-            for b in r["vals"]:
-                out[b] = ("reject",)
-            continue
-        if r["kind"] != "ok":
-            raise T.Unreadable("Operation::try_from has a result that is neither Ok nor Err")
-        res = H.strip_block(r["res"])
-        kind, c = T.result_value(res, F)
-        if kind != "ctor" or not c.startswith(OPER + "::"):
-            raise T.Unreadable("result is not an Operation variant")
-        name = c.split("::")[-1]
-        if res.get("k") == "call":
-            if name != "Vendor" or len(res["args"]) != 1:
-                raise T.Unreadable("unexpected data-carrying Operation variant " + name)
-            a = H.strip_block(A.subst(res["args"][0]))
-            if a.get("k") != "try":
-                raise T.Unreadable("Vendor payload is not `VendorOperation::try_from(code)?`")
-            call = H.strip_block(a["e"])
-            target = H.conversion_impl(call) if call.get("k") in ("call", "mcall") else None
-            if target != VTRY and call.get("resolved", call.get("callee")) != (vtry["path"] if vtry else None):
-                raise T.Unreadable("Vendor payload does not come from VendorOperation::try_from")
-            if H.local_id(A.subst(H.call_args(call)[0])) not in r["var_ids"]:
-                raise T.Unreadable("Vendor payload is built from something other than the matched byte")
-            if vend_ok is None:
-                vend_ok = vendor_decode(F)
-            for b in r["vals"]:
-                out[b] = ("vendor", b) if b in vend_ok else ("reject",)
+        if r is None or r[0] != "ctor" or r[1] not in (S.OK, S.ERR):
+            raise T.Unreadable("Operation::try_from has a result that is neither Ok nor Err: %s" % S.show(r)[:80])
+        if r[1] == S.ERR:
+            row = lambda b: ("reject",)
         else:
-            for b in r["vals"]:
-                out[b] = ("op", name)
+            v = r[2][0]
+            if v[0] != "ctor" or not v[1].startswith(OPER + "::"):
+                raise T.Unreadable("result is not an Operation variant: %s" % S.show(v)[:80])
+            name = v[1].split("::")[-1]
+            if v[2]:
+                if name != "Vendor" or len(v[2]) != 1:
+                    raise T.Unreadable("unexpected data-carrying Operation variant " + name)
+                if v[2][0] != ("ctor", VEND, (var,)):
+                    raise T.Unreadable("Vendor payload is %s, not VendorOperation(<the matched byte>)" % S.show(v[2][0])[:80])
+                row = lambda b: ("vendor", b)
+            else:
+                row = lambda b, name=name: ("op", name)
+        for b in vals:
+            if b in out:
+                raise T.Unreadable("byte 0x%02x is served by two paths of Operation::try_from" % b)
+            out[b] = row(b)
     missing = [b for b in range(256) if b not in out]
     if missing:
         raise T.Unreadable("bytes %s are not covered by any result of Operation::try_from" % missing[:4])
@@ -106,191 +97,150 @@ def decode_table(F):
 
 
 def encode_table(F):
+    """variant -> ('byte', n) | ('vendor_identity',) from the path summaries of From<Operation> for u8"""
     fn = F.trait_impl_fn(INTO, "from")
     if fn is None:
         raise T.Unreadable("anchor missing: impl From<Operation> for u8")
-    m, rows = T.variant_table(fn, F)
-    if not scrut_is_param(fn, m):
-        raise T.Unreadable("From<Operation> for u8 does not match on its argument")
-    vinto = F.trait_impl_fn(VINTO, "from")
+    pn = param_name(fn)
+    var = ("param", pn)
+    try:
+        paths = S.Sym(F, fn).run()
+    except S.TooManyPaths:
+        raise T.Unreadable("From<Operation> for u8 has too many paths")
     enc = {}
-    for r in rows:
-        if r["variant"] is None:
-            raise T.Unreadable("catch-all arm in From<Operation> for u8")
-        name = r["variant"].split("::")[-1]
-        if name in enc:
-            continue  # first match wins
-        res = H.strip_block(r["res"])
-        v = H.lit(res)
-        if isinstance(v, int) and not isinstance(v, bool):
-            enc[name] = ("byte", v)
-            continue
-        # Vendor(operation) => operation.into()
-        if res.get("k") in ("mcall", "call") and vinto is not None and H.conversion_impl(res) == VINTO:
-            args = ([res["recv"]] if res["k"] == "mcall" else []) + res["args"]
-            bid = H.local_id(args[0])
-            if bid in [i for _, i in r["binds"]]:
-                # From<VendorOperation> for u8 must return the wrapped byte
-                body = H.strip_block(vinto["body"])
-                ch = H.field_chain(body)
-                pnames = [n for p in vinto["params"] for n, _ in H.pat_bindings(p)]
-                if ch and len(ch) == 2 and ch[0] in pnames and ch[1] == "0":
-                    enc[name] = ("vendor_identity",)
-                    continue
-        raise T.Unreadable("cannot read the byte for Operation::" + name)
+    for v in F.adt(OPER)["variants"]:
+        name = v["name"]
+        sel, und = S.select(paths, {var: OPER + "::" + name})
+        if und:
+            raise T.Unreadable("From<Operation> for u8 decides on more than the variant: %s" % [S.show_atom(a) for a in und][:2])
+        if len(sel) != 1:
+            raise T.Unreadable("cannot read the byte for Operation::%s (%d paths)" % (name, len(sel)))
+        r = sel[0].result
+        if r is not None and r[0] == "lit" and isinstance(r[1], int) and not isinstance(r[1], bool):
+            enc[name] = ("byte", r[1])
+        elif r == ("field", ("proj", var, OPER + "::" + name, 0), "0") and name == "Vendor":
+            enc[name] = ("vendor_identity",)
+        else:
+            raise T.Unreadable("cannot read the byte for Operation::%s: %s" % (name, S.show(r)[:80]))
     return enc, fn
 
 
 def check_dispatch(ctx, F, cfg, spec, P="C11"):
-    fn = F.fn(DESER)
-    if fn is None:
-        ctx.violation(P + "|anchor|Request::deserialize", "anchor missing: ctap2::Request::deserialize", cfg=cfg)
+    """the command switch of Request::deserialize as a decision table over the command byte (dispatch.build)"""
+    m = D.build(F)
+    if m.error:
+        ctx.violation(P + "|anchor|Request::deserialize", m.error, cfg=cfg)
         return 0
-    A = Analysis(fn)
-    # --- the command byte and the tail
-    op_id = tail_id = None
-    for pid, (pat, init) in A.pat_of.items():
-        i = H.strip_block(init)
-        if i.get("k") == "try":
-            i = H.strip_block(i["e"])
-        d = A.desc(i)
-        if "split_first(param:data)" in d.replace("core::slice::<impl [T]>::", ""):
-            if pat.get("k") == "tuple" and len(pat["pats"]) == 2:
-                b0 = H.pat_bindings(pat["pats"][0])
-                b1 = H.pat_bindings(pat["pats"][1])
-                if len(b0) == 1 and len(b1) == 1:
-                    op_id, tail_id = b0[0][1], b1[0][1]
-    ok = ctx.oblige(P + "|dispatch|split_first", op_id is not None,
-                    "Request::deserialize no longer takes the command byte and the payload tail from `data.split_first()`", cfg=cfg, where=fn["sp"])
-    if not ok:
+    fn = m.fn
+    where = fn["sp"]
+    fixed = spec["fixed"]
+    by_code = {v: k for k, v in fixed.items()}
+    routes = [r for r in m.routes]
+    ok = all(len(r.opbytes) <= 1 for r in routes) and any(r.op is not None for r in routes)
+    if not ctx.oblige(P + "|dispatch|split_first", ok, "Request::deserialize no longer takes the command byte from the first byte of `data` (%s)" % sorted({S.show(x) for r in routes for x in r.opbytes})[:3], cfg=cfg, where=where):
         return 0
-    tryfn = F.trait_impl_fn(TRY, "try_from")
-    # --- locate the dispatch match: scrutinee = Operation::try_from(op).map_err(..)?
-    variants = [v["name"] for v in F.adt(OPER)["variants"]]
-    seen = {}
-    n_sites = 0
-    disp_closure_ok = None
-    for s in A.sites:
-        mc = None
-        for c in s.conds:
-            if c.kind == "match":
-                sc = A.subst(c.scrut)
-                if sc.get("k") == "try":
-                    inner = H.strip_block(sc["e"])
-                    call = inner
-                    clos = None
-                    if inner.get("k") == "mcall" and inner.get("callee") == "core::result::Result::<T, E>::map_err":
-                        call = H.strip_block(inner["recv"])
-                        clos = inner["args"][0]
-                    if call.get("k") in ("call", "mcall") and call.get("resolved", call.get("callee")) == tryfn["path"]:
-                        args = ([call["recv"]] if call["k"] == "mcall" else []) + call["args"]
-                        if H.local_id(args[0]) == op_id:
-                            mc = c
-                            if clos is not None and disp_closure_ok is None:
-                                cb = H.strip_block(H.strip(clos).get("body", {}))
-                                tail = cb.get("expr", cb) if cb.get("k") == "block" else cb
-                                tail = H.strip_block(tail)
-                                disp_closure_ok = (tail.get("k") == "call" and tail.get("ctor") == INVALID and H.local_id(tail["args"][0]) == op_id)
-        if mc is None:
-            continue
-        n_sites += 1
-        pats = mc.pat["pats"] if mc.pat.get("k") == "or" else [mc.pat]
-        for p in pats:
-            v = H.pat_ctor(p)
-            if v is None and H.pat_is_catchall(p):
-                # catch-all arm covers every variant not matched before
-                prior = set()
-                for q in mc.prior:
-                    for qq in (q["pats"] if q.get("k") == "or" else [q]):
-                        pv = H.pat_ctor(qq)
-                        if pv:
-                            prior.add(pv.split("::")[-1])
-                for name in variants:
-                    if name not in prior:
-                        seen.setdefault(name, []).append((s, p))
-            elif v:
-                seen.setdefault(v.split("::")[-1], []).append((s, p))
-    # every result and every error exit depends on the command byte alone (besides the empty-message guard): a guard on the
+    for r in routes:
+        ctx.oblige(P + "|dispatch|no-panic|" + str(r.p.done)[:50], not r.panics, "Request::deserialize can panic (%s)" % (r.p.done,), cfg=cfg, where=where, nontrivial=False)
+    routes = [r for r in routes if not r.panics]
+    # every result and every error exit depends on the command byte alone (besides the empty-message test): a guard on the
     # length or content of the bytes that follow would make parameter-less / unsupported / unassigned commands payload-dependent
-    def literal_ok(c):
-        if c.kind == "match":
-            sc = A.subst(c.scrut)
-            if sc.get("k") == "try":
-                return True   # the dispatch match (validated per arm below)
-            return False
-        if c.kind == "expr":
-            d = A.desc(c.e)
-            return d in ("core::slice::<impl [T]>::is_empty(param:data)",)
-        if c.kind == "let":
-            return "split_first(param:data)" in A.desc(c.init) if c.init is not None else False
-        return False
-    for s in list(A.sites) + list(A.tries):
-        badc = [A.cond_str(c) for c in s.conds if not literal_ok(c)]
-        ctx.oblige(P + "|dispatch|byte-only|%d" % s.seq, not badc,
-                   "a result of Request::deserialize depends on %s, not only on the command byte" % badc, cfg=cfg, where=H.line(s.node) if s.node else fn["sp"], nontrivial=False)
-    ctx.oblige(P + "|dispatch|unknown-byte", bool(disp_closure_ok),
-               "a byte that is not a recognised command is no longer reported as CtapMappingError::InvalidCommand(op)", cfg=cfg, where=fn["sp"])
+    for i, r in enumerate(routes):
+        bad = [S.show_atom(a) for a in r.foreign + r.unread]
+        ctx.oblige(P + "|dispatch|byte-only|%s" % (";".join(bad)[:70] or i), not bad,
+                   "a result of Request::deserialize depends on %s, not only on the command byte" % bad[:3], cfg=cfg, where=where, nontrivial=False)
+        ctx.oblige(P + "|dispatch|classified|%d" % i, r.outcome in ("ok", "err"), "a path of Request::deserialize returns neither Ok(..) nor Err(..): %s" % S.show(r.p.result)[:100], cfg=cfg, where=where, nontrivial=False)
+        if r.op is None:
+            ctx.oblige(P + "|dispatch|empty|%d" % i, r.empty is True and r.outcome == "err", "a path that does not look at the command byte is not the rejection of an empty message", cfg=cfg, where=where, nontrivial=False)
+
+    def klass(b):
+        if b in by_code:
+            return by_code[b]
+        if spec["vendor_first"] <= b <= spec["vendor_last"]:
+            return "Vendor"
+        return "<unassigned>"
+
+    by_class = {}
+    for i, r in enumerate(routes):
+        if r.op is None:
+            continue
+        ks = {klass(b) for b in r.bytes}
+        if not r.bytes:
+            continue    # infeasible combination of byte tests
+        if not ctx.oblige(P + "|dispatch|one-command|%d" % i, len(ks) == 1, "one path of Request::deserialize serves the commands %s alike (bytes %s)" % (sorted(ks), D.compress(sorted(r.bytes))[:6]), cfg=cfg, where=where, nontrivial=False):
+            for k in ks:
+                by_class.setdefault(k, []).append(r)
+            continue
+        by_class.setdefault(next(iter(ks)), []).append(r)
+    variants = [v["name"] for v in F.adt(OPER)["variants"]]
+    req_adt = F.adt("ctap2::Request")
+    req_fields = {v["name"]: [f["ty"]["s"] for f in v["fields"]] for v in (req_adt or {"variants": []})["variants"]}
+
+    def invalid_command(r):
+        return r.outcome == "err" and r.err == ("ctor", INVALID, (r.op,))
+
+    # bytes that are no command at all
+    un = by_class.get("<unassigned>", [])
+    covered = set().union(*[r.bytes for r in un]) if un else set()
+    want_un = {b for b in range(256) if klass(b) == "<unassigned>"}
+    ctx.oblige(P + "|dispatch|unknown-byte", bool(un) and all(invalid_command(r) for r in un) and covered == want_un,
+               "a byte that is not a recognised command is no longer reported as CtapMappingError::InvalidCommand(op) (%s)" % [D.show_route(r) for r in un if not invalid_command(r)][:2], cfg=cfg, where=where)
     for name in variants:
         want = spec["decode"].get(name)
         key = P + "|dispatch|" + name
-        sites = seen.get(name, [])
         if want is None:
             ctx.note("Operation::%s has no row in spec/commands.json (new variant): its dispatch is not judged" % name)
             continue
-        if len(sites) != 1:
-            ctx.oblige(key, False, "Operation::%s is handled by %d result sites of Request::deserialize (expected exactly 1)" % (name, len(sites)), cfg=cfg, where=fn["sp"])
+        rs = by_class.get(name, [])
+        wantb = {b for b in range(256) if klass(b) == name}
+        cov = set().union(*[r.bytes for r in rs]) if rs else set()
+        if not ctx.oblige(key + "|bytes", cov == wantb and bool(rs), "Operation::%s: the paths of Request::deserialize cover bytes %s, the command table says %s" % (name, D.compress(sorted(cov)), D.compress(sorted(wantb))), cfg=cfg, where=where, nontrivial=False):
+            ctx.oblige(key, False, "Operation::%s is not dispatched for exactly its command byte" % name, cfg=cfg, where=where)
             continue
-        s, p = sites[0]
-        node = H.strip_block(s.node) if s.node else {}
-        where = H.line(node)
+        oks = [r for r in rs if r.outcome == "ok"]
+        errs = [r for r in rs if r.outcome == "err"]
         if want.get("unsupported"):
-            good = s.wrappers == [ERR]
-            if good:
-                # Err(CtapMappingError::InvalidCommand(op).into())
-                n = node
-                if n.get("k") in ("mcall", "call") and n.get("callee") == "core::convert::Into::into":
-                    n = H.strip_block(([n["recv"]] if n["k"] == "mcall" else n["args"])[0])
-                good = n.get("k") == "call" and n.get("ctor") == INVALID and H.local_id(n["args"][0]) == op_id
-            ctx.oblige(key, good, "unsupported command %s is not reported as InvalidCommand(op)" % name, cfg=cfg, where=where)
+            ctx.oblige(key, not oks and errs and all(invalid_command(r) for r in errs), "unsupported command %s is not reported as InvalidCommand(op): %s" % (name, [D.show_route(r)["result"] for r in rs][:2]), cfg=cfg, where=where)
             continue
-        if s.wrappers != [OK]:
+        if not oks:
             ctx.oblige(key, False, "Operation::%s does not produce Ok(request)" % name, cfg=cfg, where=where)
             continue
-        c = H.ctor(node)
-        if c != "ctap2::Request::" + want["request"]:
-            ctx.oblige(key, False, "Operation::%s produces %s instead of Request::%s" % (name, c, want["request"]), cfg=cfg, where=where)
-            continue
-        if "payload" in want:
-            good = node.get("k") == "call" and len(node["args"]) == 1
-            msg = "payload-bearing command %s does not decode its parameters" % name
-            if good:
-                a = H.strip_block(node["args"][0])
-                good = a.get("k") == "try"
-                if good:
-                    inner = H.strip_block(a["e"])
-                    if inner.get("k") == "mcall" and inner.get("callee") == "core::result::Result::<T, E>::map_err":
-                        wrapper = H.def_path(inner["args"][0]) or H.ctor(inner["args"][0])
-                        if wrapper != PARSING:
-                            good, msg = False, "CBOR errors of %s are not wrapped by the bare CtapMappingError::ParsingError constructor" % name
-                        inner = H.strip_block(inner["recv"])
-                    if good and not (inner.get("k") == "call" and inner.get("callee") == "cbor_smol::de::cbor_deserialize" or inner.get("callee") == "cbor_smol::cbor_deserialize"):
-                        good, msg = False, "%s payload is not decoded with cbor_deserialize" % name
-                    if good:
-                        if H.local_id(inner["args"][0]) != tail_id:
-                            good, msg = False, "%s payload is decoded from something other than the bytes after the command byte" % name
-                        ty = a.get("ty", "")
-                        if good and not ty.startswith(want["payload"]):
-                            good, msg = False, "%s payload decodes as %s, expected %s" % (name, ty, want["payload"])
-            ctx.oblige(key, good, msg, cfg=cfg, where=where)
-        elif want.get("carries_vendor_code"):
-            good = node.get("k") == "call" and len(node["args"]) == 1 and H.local_id(node["args"][0]) in [i for _, i in H.pat_bindings(p)]
-            ctx.oblige(key, good, "Request::Vendor does not carry the vendor operation that was decoded", cfg=cfg, where=where)
-        else:
-            # parameter-less: unit variant, payload bytes not looked at
-            mentions = [x for x in H.walk(node) if H.local_id(x) == tail_id] if node.get("k") != "path" else []
-            ctx.oblige(key, node.get("k") == "path" and not mentions, "parameter-less command %s looks at the bytes that follow" % name, cfg=cfg, where=where)
-        ctx.sample({"cfg": cfg, "operation": name, "site": A.site_str(s)}, limit=60)
-    return n_sites
+        good, msg = True, ""
+        for r in oks:
+            v = r.value
+            c = v[1] if v and v[0] == "ctor" else None
+            if c != "ctap2::Request::" + want["request"]:
+                good, msg = False, "Operation::%s produces %s instead of Request::%s" % (name, S.show(v)[:80], want["request"])
+                break
+            if "payload" in want:
+                if not (r.decode is not None and r.decode_known == S.OK and len(v[2]) == 1 and v[2][0] == m.sym.proj(r.decode.term, S.OK, 0)):
+                    good, msg = False, "payload-bearing command %s does not carry the value decoded by cbor_deserialize (carries %s)" % (name, S.show(v)[:100])
+                    break
+                if not (len(r.decode.args) == 1 and D.is_tail(r.decode.args[0])):
+                    good, msg = False, "%s payload is decoded from %s, not from the bytes after the command byte" % (name, S.show(r.decode.args[0])[:80] if r.decode.args else "nothing")
+                    break
+                ft = (req_fields.get(want["request"]) or [""])[0]
+                if not ft.startswith(want["payload"]):
+                    good, msg = False, "%s payload decodes as %s, expected %s" % (name, ft, want["payload"])
+                    break
+            elif want.get("carries_vendor_code"):
+                if not (len(v[2]) == 1 and v[2][0] == ("ctor", VEND, (r.op,)) and not r.decodes):
+                    good, msg = False, "Request::Vendor does not carry the vendor operation that was decoded (carries %s)" % S.show(v)[:80]
+                    break
+            else:
+                if v[2] or r.decodes:
+                    good, msg = False, "parameter-less command %s looks at the bytes that follow" % name
+                    break
+        if good and "payload" in want:
+            # the only other exits of this command: the payload decoder failed
+            bad = [r for r in errs if not (r.decode is not None and r.decode_known == S.ERR)]
+            if bad or not errs or len(oks) != 1:
+                good, msg = False, "command %s has %d Ok paths and error exits other than a failed payload decoder: %s" % (name, len(oks), [D.show_route(r)["result"] for r in bad][:2])
+        elif good and errs:
+            good, msg = False, "command %s without payload can be rejected: %s" % (name, [D.show_route(r)["result"] for r in errs][:2])
+        ctx.oblige(key, good, msg, cfg=cfg, where=where)
+        ctx.sample({"cfg": cfg, "operation": name, "routes": [D.show_route(r) for r in rs]}, limit=60)
+    ctx.extra.setdefault("dispatch_helpers_expanded", {})[cfg] = sorted(m.sym.inlined)
+    return len(routes)
 
 
 def run(ctx):
